@@ -43,9 +43,15 @@ def run(ctx, crate):
             continue
         b = w.body
         acc = w.acc
-        ok_acc = T.is_call(acc, "new") and "HashMap" in acc[1]
-        obs.append(Ob("R03.return", w.path, "the accumulator map is what is returned", ok_acc, expected="return value = the HashMap created at entry",
-                      found=show(acc)))
+        if w.style == "accumulator":
+            ok_acc = w.delegate_ok and w.entry.val_local(0) == w.delegate.args[int(w.acc_param[1]) - 1]
+            obs.append(Ob("R03.return", w.path, "the accumulator map is what is returned", ok_acc,
+                          expected="the entry point creates the map, hands `&mut map` once and unconditionally to the recursive walker and returns it",
+                          found="walker %s, delegate_ok=%s" % (w.walker_path, w.delegate_ok)))
+        else:
+            ok_acc = T.is_call(acc, "new") and "HashMap" in acc[1]
+            obs.append(Ob("R03.return", w.path, "the accumulator map is what is returned", ok_acc, expected="return value = the HashMap created at entry",
+                          found=show(acc)))
         shape = []
         # mutation sites of the accumulator
         for s in w.acc_sites:
@@ -54,7 +60,7 @@ def run(ctx, crate):
                 continue
             if name.endswith(ENTRY):
                 shape.append("entry")
-                kd = "pattern of the current loop" if s.args[1] == ("elem", ("param", 2)) else ("key of the nested result" if w.self_calls and T.contains(s.args[1], w.self_calls[0].result) else show(s.args[1]))
+                kd = "pattern of the current loop" if s.args[1] == ("elem", w.pat) else ("key of the nested result" if w.self_calls and T.contains(s.args[1], w.self_calls[0].result) else show(s.args[1]))
                 obs.append(Ob("R03.merge", w.path, "entry(%s) on the accumulator" % kd, True, site=s.where, found=show(s.args[1])))
                 continue
             detail = "accumulator mutated by %s" % name.split("<")[0].rstrip(":") if "<" in name else "accumulator mutated by %s" % name
@@ -79,7 +85,7 @@ def run(ctx, crate):
                           expected="entries only grow: push / append / extend", found=s.path,
                           example="two files with the same base name in sibling directories"))
         # whole-map assignments to the accumulator local are visible as a phi
-        if acc[0] == "phi":
+        if acc[0] == "phi" and w.style == "return-merge":
             obs.append(Ob("R03.merge", w.path, "accumulator reassigned", False, found=show(acc)))
         # appenders on entries of the accumulator
         appends = []
@@ -95,7 +101,8 @@ def run(ctx, crate):
             rc = w.self_calls[0]
             g = S.block_guard(b, rc.bb)
             on_dir = g is not None and all(any(a.startswith("Path::is_dir(") for a in c) for c in g)
-            same_patterns = len(rc.args) == 2 and rc.args[1] == ("param", 2)
+            same_patterns = (len(rc.args) == 2 and rc.args[1] == w.pat) if w.style == "return-merge" else \
+                (rc.args[int(w.pat[1]) - 1] == w.pat and rc.args[int(w.acc_param[1]) - 1] == w.acc_param)
             sub = rc.args[0] if rc.args else ("unknown", "")
             sub_ok = bool(T.calls_in(sub, "DirEntry::path")) and not T.consts_in(sub, "str")
             obs.append(Ob("R03.recurse", w.path, "recursion on the sub-directory with the same pattern list", on_dir and same_patterns and sub_ok,
@@ -103,6 +110,16 @@ def run(ctx, crate):
                           found="under_is_dir=%s patterns=%s path=%s" % (on_dir, show(rc.args[1]) if len(rc.args) > 1 else None, show(sub))))
             res = rc.result
             merged = False
+            if w.style == "accumulator":
+                # the nested call writes into the same map: there is no separate result to merge
+                gs = S.block_guard(b, rc.bb)
+                extra = [a for c in (gs or []) for a in c if not a.startswith("Path::is_dir(")]
+                if not extra and len(b.loops_of(rc.bb)) == 1:
+                    merged = True
+                    shape.append("merge-per-key")
+                    shape.append("entry")
+                    obs.append(Ob("R03.merge", w.path, "the nested call fills the same accumulator (nothing to merge, nothing to overwrite)", True, site=rc.where,
+                                  found=show(rc.args[int(w.acc_param[1]) - 1])))
             for (s, k) in appends:
                 # key = element.0 of the recursive result, value = element.1
                 if T.contains(k, res) and len(s.args) > 1 and T.contains(s.args[1], res) and k != s.args[1]:
@@ -128,7 +145,7 @@ def run(ctx, crate):
         else:
             (s, k, name_t, lines_t) = pf[0]
             an = w.analyze[0]
-            pat = ("elem", ("param", 2))
+            pat = ("elem", w.pat)
             c1 = k == pat
             c2 = lines_t == an.result and len(an.args) == 3 and an.args[2] == pat
             c3 = bool(T.calls_in(name_t, "Path::file_name")) and w.reads and T.calls_in(name_t, "Path::file_name")[0][2][0] == w.reads[0].args[0]
